@@ -237,10 +237,13 @@ class NP:
             b = np.asarray(b, dtype=object)
         return np.dot(a, b)
 
-    def isclose(self, a, b, **kw):
+    def isclose(self, a, b, rtol=1e-05, atol=1e-08, equal_nan=False):
+        if isinstance(a, SNum) or isinstance(b, SNum):
+            # numpy's definition over the reals (S1): |a - b| <= atol + rtol * |b|
+            return builtins.abs(a - b) <= sym.nice_rational(atol) + sym.nice_rational(rtol) * builtins.abs(b)
         if is_sym(a) or is_sym(b):
-            raise sym.EngineLimit("np.isclose on symbolic data")
-        return np.isclose(a, b, **kw)
+            raise sym.EngineLimit("np.isclose on symbolic arrays")
+        return np.isclose(a, b, rtol=rtol, atol=atol, equal_nan=equal_nan)
 
 
 NUMPY_FUNCS = {
